@@ -252,6 +252,36 @@ func runC08(c *fw.Ctx) {
 		c08Run(c, "zoo:"+k, "goast+guess.WithMap", b, func() (*dst.File, error) { return dec(b) }, guess.WithMap(names), dec)
 	}
 
+	// (a5) every qualified identifier of the context files x every insertion variant, one at a time
+	ctxNames := map[string]string{"fmt": "fmt", "os": "os", "strings": "strings", "sync": "sync"}
+	ci := 0
+	for ck, csrc := range c08ContextFiles() {
+		b0, ok := gen.Canonicalise([]byte(csrc))
+		if !ok {
+			continue
+		}
+		for si, st := range dotSites(b0, ctxNames) {
+			for vi, ed := range dotEditVariants(st, "#x") {
+				i := ci
+				ci++
+				if !c.Mine(i) {
+					continue
+				}
+				msrc, ok := gen.Canonicalise(gen.ApplyEdits(b0, ed))
+				if !ok || bytes.Equal(msrc, b0) {
+					c.Count("exhaustive_variants_not_canonicalisable", 1)
+					continue
+				}
+				dec := func(s []byte) (*dst.File, error) {
+					d := decorator.NewDecoratorWithImports(token.NewFileSet(), "example.com/self", goast.WithResolver(simple.New(ctxNames)))
+					return d.Parse(s)
+				}
+				c.Observe("exhaustive_edit_kinds", ed[len(ed)-1].Kind)
+				c08Run(c, fmt.Sprintf("ctx:%s/site%d/variant%d", ck, si, vi), "goast+simple/site-exhaustive", msrc, func() (*dst.File, error) { return dec(msrc) }, simple.New(ctxNames), dec)
+			}
+		}
+	}
+
 	// (a4) generated import sections: 1-3 blocks of 1-3 specs, parenthesised or not, aliases,
 	// blank imports, comments; every named import is referenced, so nothing has to change
 	ngen := c.Pick(1500, 60000)
@@ -395,16 +425,49 @@ func c08Dirs(c *fw.Ctx) []string {
 
 // dotEdits inserts block comments / line breaks before and after the dot of qualified identifiers
 // and comments inside import specs.
-func dotEdits(r interface{ Intn(int) int }, src []byte, names map[string]string, n int) []gen.Edit {
+type dotSite struct{ before, after, pkgStart, selEnd, nextLine int }
+
+// dotEditVariants lists every single insertion (or pair) this check knows for one qualified identifier.
+func dotEditVariants(s dotSite, id string) [][]gen.Edit {
+	vs := [][]gen.Edit{
+		{{Off: s.before, Text: " /*" + id + "*/ ", Kind: "block-before-dot"}},
+		{{Off: s.after, Text: " /*" + id + "*/ ", Kind: "block-after-dot"}},
+		{{Off: s.after, Text: "\n", Kind: "newline-after-dot"}},
+		{{Off: s.after, Text: " //" + id + "\n", Kind: "line-comment-after-dot"}},
+		{{Off: s.after, Text: "\n//" + id + "\n", Kind: "newline+own-line-comment-after-dot"}},
+		{{Off: s.after, Text: "\n/*" + id + "*/ ", Kind: "newline+block-after-dot"}},
+		{{Off: s.before, Text: " /*" + id + "a*/ ", Kind: "block-before-dot"}, {Off: s.after, Text: "\n/*" + id + "b*/ ", Kind: "newline+block-after-dot"}},
+		{{Off: s.selEnd, Text: " /*" + id + "*/", Kind: "block-after-selector"}},
+		{{Off: s.pkgStart, Text: "/*" + id + "*/ ", Kind: "block-before-qualifier"}},
+	}
+	if s.nextLine >= 0 {
+		vs = append(vs,
+			[]gen.Edit{{Off: s.nextLine, Text: "//" + id + "\n", Kind: "own-line-comment-after-selector"}},
+			[]gen.Edit{{Off: s.nextLine - 1, Text: " //" + id + "a", Kind: "line-comment-after-selector"}, {Off: s.nextLine, Text: "//" + id + "b\n", Kind: "own-line-comment-after-selector"}},
+			[]gen.Edit{{Off: s.nextLine - 1, Text: " //" + id, Kind: "line-comment-after-selector"}},
+			[]gen.Edit{{Off: s.nextLine, Text: "\n//" + id + "\n", Kind: "blank+own-line-comment-after-selector"}},
+			[]gen.Edit{{Off: s.nextLine, Text: "/*" + id + "\n" + id + "*/\n", Kind: "own-line-multiline-block-after-selector"}},
+		)
+	}
+	return vs
+}
+
+// dotSites finds the qualified identifiers (package name, dot, identifier) of src.
+func dotSites(src []byte, names map[string]string) []dotSite {
+	ds, _ := dotSitesAndImports(src, names)
+	return ds
+}
+
+func dotSitesAndImports(src []byte, names map[string]string) ([]dotSite, []int) {
 	toks, errs := obs.Scan(src)
 	if errs > 0 {
-		return nil
+		return nil, nil
 	}
 	pkgNames := map[string]bool{}
 	for _, v := range names {
 		pkgNames[v] = true
 	}
-	type site struct{ before, after int }
+	type site = dotSite
 	var sites []site
 	var importToks []int
 	inImport := false
@@ -429,13 +492,48 @@ func dotEdits(r interface{ Intn(int) int }, src []byte, names map[string]string,
 			}
 		}
 		if t.Tok == token.PERIOD && i > 0 && i+1 < len(toks) && toks[i-1].Tok == token.IDENT && pkgNames[toks[i-1].Lit] && toks[i+1].Tok == token.IDENT {
-			sites = append(sites, site{t.Off, t.Off + 1})
+			st := site{before: t.Off, after: t.Off + 1, pkgStart: toks[i-1].Off, selEnd: toks[i+1].Off + len(toks[i+1].Lit), nextLine: -1}
+			// the selector ends its line (possibly followed by a comma): the next line can take an
+			// own-line comment that belongs to the selector
+			if e := bytes.IndexByte(src[st.selEnd:], '\n'); e >= 0 {
+				if rest := strings.TrimSpace(string(src[st.selEnd : st.selEnd+e])); rest == "" || rest == "," {
+					st.nextLine = st.selEnd + e + 1
+				}
+			}
+			sites = append(sites, st)
 		}
 	}
+	return sites, importToks
+}
+
+func dotEdits(r interface{ Intn(int) int }, src []byte, names map[string]string, n int) []gen.Edit {
+	sites, importToks := dotSitesAndImports(src, names)
 	var edits []gen.Edit
 	for k := 0; k < n; k++ {
 		id := fmt.Sprintf("#d%d", k)
-		switch x := r.Intn(7); {
+		switch x := r.Intn(9); {
+		case x >= 7 && len(sites) > 0:
+			// around the whole qualified identifier: these become Start / End decorations of the
+			// collapsed identifier
+			s := sites[r.Intn(len(sites))]
+			switch r.Intn(5) {
+			case 0:
+				edits = append(edits, gen.Edit{Off: s.selEnd, Text: " /*" + id + "*/", Kind: "block-after-selector"})
+			case 1:
+				edits = append(edits, gen.Edit{Off: s.pkgStart, Text: "/*" + id + "*/ ", Kind: "block-before-qualifier"})
+			case 2:
+				if s.nextLine >= 0 {
+					edits = append(edits, gen.Edit{Off: s.nextLine, Text: "//" + id + "\n", Kind: "own-line-comment-after-selector"})
+				}
+			case 3:
+				if s.nextLine >= 0 {
+					edits = append(edits, gen.Edit{Off: s.nextLine - 1, Text: " //" + id + "a", Kind: "line-comment-after-selector"}, gen.Edit{Off: s.nextLine, Text: "//" + id + "b\n", Kind: "own-line-comment-after-selector"})
+				}
+			case 4:
+				if s.nextLine >= 0 {
+					edits = append(edits, gen.Edit{Off: s.nextLine - 1, Text: " //" + id, Kind: "line-comment-after-selector"})
+				}
+			}
 		case x < 2 && len(sites) > 0:
 			s := sites[r.Intn(len(sites))]
 			edits = append(edits, gen.Edit{Off: s.before, Text: " /*" + id + "*/ ", Kind: "block-before-dot"})
@@ -475,6 +573,80 @@ func dotEdits(r interface{ Intn(int) int }, src []byte, names map[string]string,
 		}
 	}
 	return out
+}
+
+// c08ContextFiles: qualified identifiers in the syntactic contexts where the collapsed identifier's
+// own decorations matter (list elements, last element before a closing delimiter, operands, types).
+func c08ContextFiles() map[string]string {
+	return map[string]string{
+		"lists": `package p
+
+import (
+	"fmt"
+	"os"
+	"strings"
+)
+
+func f(g func(...interface{})) {
+	fmt.Println(
+		os.Args,
+		strings.ToUpper,
+	)
+	_ = []interface{}{
+		os.Stdin,
+		fmt.Sprint,
+	}
+	g(os.Stdout,
+		os.Stderr)
+	x := map[string]interface{}{
+		"a": os.Getenv,
+		"b": strings.TrimSpace,
+	}
+	_ = x
+	switch g {
+	case nil:
+		fmt.Print()
+		os.Exit(1)
+	}
+	return
+}
+`,
+		"types": `package p
+
+import (
+	"fmt"
+	"os"
+	"strings"
+	"sync"
+)
+
+type T struct {
+	A  os.File
+	mu sync.Mutex
+	strings.Builder
+	f func(os.Signal) fmt.Stringer
+}
+
+type I interface {
+	fmt.Stringer
+	M(x os.FileMode) strings.Reader
+}
+
+var (
+	v sync.Once
+	w = os.Args
+)
+
+func (t *T) m(a os.FileInfo, b ...fmt.Formatter) (r strings.Replacer, err error) {
+	var once sync.Once
+	once.Do(func() { _ = os.Args[0] + strings.Repeat("x", len(os.Args)) })
+	if v, ok := interface{}(t).(fmt.Stringer); ok {
+		_ = v
+	}
+	return
+}
+`,
+	}
 }
 
 // importZoo: small canonical files with unusual import sections.
